@@ -142,7 +142,8 @@ pub fn run_c06(cfg: &Cfg) -> Report {
         let k = (cx.idx / ns) as usize;
         let pad = sizes[(cx.idx % ns) as usize];
         let mut r = cx.rng.clone();
-        let t = padded(k, pad, &mut r);
+        let shape = [(false, 1usize), (true, 1), (false, 2), (true, 2), (false, 3), (true, 5)][(pad + k) % 6];
+        let t = padded_with_path(k, pad, &mut r, shape.0, shape.1);
         cx.eval();
         if check_term(cx, &t, pad < 5000).is_some() {
             cx.rep.cov(&format!("boundary_kind:{}", PREFIXED_KINDS[k]));
@@ -190,7 +191,7 @@ pub fn run_c14_aml(cfg: &Cfg) -> Report {
     let mut rep = par_cases(cfg, "aml.sinks", n, |cx| {
         let mut r = cx.rng.clone();
         let depth = 1 + r.usize_below(6);
-        let mut budget = if cx.idx % 50 == 0 { 600 } else { 40 };
+        let mut budget = if cx.cfg.mini { 12 } else if cx.idx % 50 == 0 { 600 } else { 40 };
         let t = gen_term(&mut r, depth, &mut budget);
         cx.eval();
         with_object(&t, |o| {
@@ -231,7 +232,91 @@ pub fn run_c14_aml(cfg: &Cfg) -> Report {
         });
     });
     rep.rule("AML half: random term trees, each real object serialised twice and into six sink kinds");
+    rep.merge(run_c14_raw_forms(cfg));
     rep
+}
+
+/// C14: raw in-memory form == serialised form for the public `Aml + IntoBytes` value types that
+/// are not table entries of their own in the tables engine (GAS, notification structure, RQSC
+/// resource ids, FACS with caller-set fields), over boundary-biased field values.
+pub fn run_c14_raw_forms(cfg: &Cfg) -> Report {
+    use crate::tables::gen::gen_gas;
+    use crate::tables::ops::NotifArg;
+    use crate::tables::real::{build_notification, facs_set_field, mk_gas};
+    use acpi_tables::{facs::FACS, rqsc, Aml};
+    use zerocopy::IntoBytes;
+    let thorough = cfg.tier == Tier::Thorough;
+    let n = cfg.scaled(if thorough { 2_000_000 } else { 60_000 });
+    fn cmp(cx: &mut CaseCtx, what: &str, raw: &[u8], a: &dyn Aml, desc: String) -> bool {
+        cx.obs();
+        let ser = to_vec(a);
+        if raw != &ser[..] {
+            let i = raw.iter().zip(ser.iter()).position(|(x, y)| x != y).unwrap_or(raw.len().min(ser.len()));
+            cx.violation(
+                format!("{}: raw in-memory form differs from the serialised form at byte {}", what, i),
+                obj(vec![("value", desc.into()), ("raw", hex(raw).into()), ("serialised", hex(&ser).into())]),
+            );
+            return false;
+        }
+        if acpi_tables::u8sum(a) != sum8(raw) {
+            cx.violation(format!("{}: u8sum() differs from the arithmetic sum of the raw form", what), obj(vec![("value", desc.into())]));
+            return false;
+        }
+        cx.rep.cov(&format!("raw_form:{}", what));
+        true
+    }
+    par_cases(cfg, "raw.forms", n, |cx| {
+        let mut r = cx.rng.clone();
+        cx.eval();
+        match cx.idx % 8 {
+            0 | 1 | 2 => {
+                let mut g = gen_gas(&mut r);
+                g.space = (cx.idx / 8 % 13) as u8; // every address space in turn
+                if cx.idx % 3 == 0 {
+                    g.addr = r.next_u64() | 0xFFFF_0000_0000_0000; // high address bits set
+                }
+                let o = mk_gas(&g);
+                if cmp(cx, "gas::GAS", o.as_bytes(), &o, format!("{:?}", g)) {
+                    cx.rep.distinct(&format!("{:?}", g));
+                }
+            }
+            3 => {
+                let n = NotifArg { ty: r.below(16) as u8, sets: (0..r.below(8)).map(|_| (r.below(7) as u8, r.u32b())).collect() };
+                let o = build_notification(&n);
+                if cmp(cx, "hest::NotificationStructure", o.as_bytes(), &o, format!("{:?}", n)) {
+                    cx.rep.distinct(&format!("{:?}", n));
+                }
+            }
+            4 => {
+                let v = r.u32b();
+                let o = rqsc::CacheResource::new(v);
+                cmp(cx, "rqsc::CacheResource", o.as_bytes(), &o, format!("{:#x}", v));
+                let o = rqsc::PCIDeviceResource::new(v);
+                cmp(cx, "rqsc::PCIDeviceResource", o.as_bytes(), &o, format!("{:#x}", v));
+                cx.rep.distinct(&("rqsc32", v));
+            }
+            5 => {
+                let (a, b) = (r.u64b(), r.u32b());
+                let o = rqsc::ACPIDeviceResource::new(a, b);
+                cmp(cx, "rqsc::ACPIDeviceResource", o.as_bytes(), &o, format!("{:#x},{:#x}", a, b));
+                let o = rqsc::MemoryAffinityStructureResource::new(b, a);
+                cmp(cx, "rqsc::MemoryAffinityStructureResource", o.as_bytes(), &o, format!("{:#x},{:#x}", b, a));
+                cx.rep.distinct(&("rqsc64", a, b));
+            }
+            _ => {
+                let mut f = FACS::new();
+                let mut d = String::new();
+                for _ in 0..r.below(5) {
+                    let (i, v) = (r.usize_below(7), r.u64b());
+                    facs_set_field(&mut f, i, v);
+                    d.push_str(&format!("field{}={:#x} ", i, v));
+                }
+                if cmp(cx, "facs::FACS", f.as_bytes(), &f, d.clone()) {
+                    cx.rep.distinct(&d);
+                }
+            }
+        }
+    })
 }
 
 /// C15: alternative construction paths.
